@@ -655,9 +655,11 @@ func (ie IndexExpression) PrettyPrint(out *PrintState) *PrintState {
 	out.Print(ie.Literal())
 	out.ExpressionPrecedence = LOWEST
 	plainKey := false
-	switch ie.Index.(type) {
-	case *Identifier, *StringLiteral, *PostfixExpression: // m.k, m."k", m.v++ read back as they are.
+	switch idx := ie.Index.(type) {
+	case *Identifier, *StringLiteral: // m.k, m."k" read back as they are.
 		plainKey = !strings.HasPrefix(ie.Index.Value().Literal(), ".") // (but not the .. identifier: a... )
+	case *PostfixExpression: // m.v++ too
+		plainKey = !strings.HasPrefix(idx.Prev.Literal(), ".")
 	}
 	dotExpr := ie.Token.Type() == token.DOT && !plainKey
 	if dotExpr {
